@@ -18,7 +18,9 @@ done
 # time_series_causal_graph.py algorithms -> TSGen{Summary,Stationary,Minimal,Extend}.v
 /venv/bin/python tools/translate_ts_summary.py "${VERIF_REPO:-/repo}" coq/theories || true
 /venv/bin/python tools/translate_ts_extend.py "${VERIF_REPO:-/repo}" coq/theories || true
-for f in TSGenSummary TSGenStationary TSGenMinimal TSGenExtend; do
+# causal_graph.py rollback mutators (change_edge_type, replace_edge, delete_node, delete_edge) -> MutGenRollback.v
+/venv/bin/python tools/translate_mutators.py "${VERIF_REPO:-/repo}" coq/theories || true
+for f in TSGenSummary TSGenStationary TSGenMinimal TSGenExtend MutGenRollback; do
   [ -f coq/theories/$f.v ] || echo "(* the translator failed closed *) Definition translator_failed_closed : True := 0." > coq/theories/$f.v
 done
 cd coq
